@@ -97,6 +97,10 @@ pub enum Event<'a> {
 
 pub struct Limits {
     pub horizon: usize,
+    /// leave the subset when a callee returns with sp / saved registers changed
+    /// or after writing its caller's frame (C01); when false only the return
+    /// target matters (C02, C03)
+    pub require_callee_convention: bool,
 }
 
 pub fn in_stack_region(a: u32) -> bool {
@@ -200,9 +204,15 @@ pub fn run_traced(
         if let Some((addr, _bytes, is_store)) = info.mem {
             if is_store && in_stack_region(addr) {
                 if info.base_reg != Some(SP) {
-                    on(&Event::After { idx, info: &info }, m, &frames);
-                    on(&Event::LeftSubset("stack written through a register other than sp"), m, &frames);
-                    return steps;
+                    if lim.require_callee_convention {
+                        on(&Event::After { idx, info: &info }, m, &frames);
+                        on(
+                            &Event::LeftSubset("stack written through a register other than sp"),
+                            m,
+                            &frames,
+                        );
+                        return steps;
+                    }
                 }
                 if let Some(top) = frames.last_mut() {
                     if top.call_index.is_some() && addr >= top.at_call[SP as usize] {
@@ -228,7 +238,9 @@ pub fn run_traced(
                             ok_regs = false;
                         }
                     }
-                    if !ok_target || !ok_regs || f.wrote_caller_frame {
+                    if !ok_target
+                        || (lim.require_callee_convention && (!ok_regs || f.wrote_caller_frame))
+                    {
                         on(&Event::LeftSubset("callee does not respect the convention"), m, &frames);
                         return steps;
                     }
